@@ -50,11 +50,12 @@ InitWith(c) ==
   /\ fin = {}
   /\ h = <<>>
 
-Running == {w \in Workers : wk[w].st = "run"}
+Running == {w \in Workers : wk[w].st \in {"picked", "run"}}
 \* nothing can happen except a (gated) submitter step or a (gated) task end
 Quiescent ==
   /\ ~(queue # <<>> /\ \E w \in Workers : wk[w].st = "idle")
-  /\ \A s \in Subs : sub[s].pc = "send" => Len(queue) >= Cap
+  /\ \A w \in Workers : wk[w].st # "picked"
+  /\ \A s \in Subs : sub[s].pc # "sent" /\ (sub[s].pc = "send" => Len(queue) >= Cap)
 GateOpen == ~cfg.gated \/ Quiescent
 
 \* Submit, first half: wg.Add(1) (flyt.go:993)
@@ -71,17 +72,28 @@ SubmitCall(s) ==
 SubmitSend(s) ==
   /\ sub[s].pc = "send" /\ Len(queue) < Cap
   /\ queue' = Append(queue, sub[s].task)
+  /\ sub' = [sub EXCEPT ![s].pc = "sent"]
+  /\ UNCHANGED <<cfg, wg, wk, closed, main, runs, fin, h>>
+
+\* Submit returns to its caller (a worker may already have picked the task up by then)
+SubmitReturn(s) ==
+  /\ sub[s].pc = "sent"
   /\ h' = Append(h, [ev |-> "submitret", task |-> sub[s].task, sub |-> s])
   /\ sub' = [sub EXCEPT ![s] = [pc |-> "idle", next |-> @.next + 1, task |-> 0]]
-  /\ UNCHANGED <<cfg, wg, wk, closed, main, runs, fin>>
+  /\ UNCHANGED <<cfg, queue, wg, wk, closed, main, runs, fin>>
 
-\* a worker receives a task and starts it (flyt.go:975-979)
+\* a worker receives a task from the channel (flyt.go:975-979) ...
 Pickup(w) ==
   /\ wk[w].st = "idle" /\ queue # <<>>
-  /\ wk' = [wk EXCEPT ![w] = [st |-> "run", task |-> Head(queue)]]
+  /\ wk' = [wk EXCEPT ![w] = [st |-> "picked", task |-> Head(queue)]]
   /\ queue' = Tail(queue)
-  /\ h' = Append(h, [ev |-> "taskstart", task |-> Head(queue), gid |-> w])
-  /\ UNCHANGED <<cfg, sub, wg, closed, main, runs, fin>>
+  /\ UNCHANGED <<cfg, sub, wg, closed, main, runs, fin, h>>
+\* ... and calls it: the task body begins
+TaskStart(w) ==
+  /\ wk[w].st = "picked"
+  /\ wk' = [wk EXCEPT ![w].st = "run"]
+  /\ h' = Append(h, [ev |-> "taskstart", task |-> wk[w].task, gid |-> w])
+  /\ UNCHANGED <<cfg, sub, queue, wg, closed, main, runs, fin>>
 
 \* the task returns; the deferred wg.Done() runs
 TaskEnd(w) ==
@@ -136,15 +148,15 @@ LeakProbe ==
   /\ UNCHANGED <<cfg, sub, queue, wg, wk, closed, runs, fin>>
 
 Next ==
-  \/ \E s \in Subs : SubmitCall(s) \/ SubmitSend(s)
-  \/ \E w \in Workers : Pickup(w) \/ TaskEnd(w) \/ Exit(w)
+  \/ \E s \in Subs : SubmitCall(s) \/ SubmitSend(s) \/ SubmitReturn(s)
+  \/ \E w \in Workers : Pickup(w) \/ TaskStart(w) \/ TaskEnd(w) \/ Exit(w)
   \/ WaitCall \/ WaitRet \/ Close \/ LeakProbe
 
 (* ---------------------------------------------------------------------- *)
 (* design-level invariants                                                 *)
 (* ---------------------------------------------------------------------- *)
 TypeOK == /\ wg >= 0 /\ Len(queue) <= Cap
-          /\ \A w \in Workers : wk[w].st \in {"idle", "run", "exited"}
+          /\ \A w \in Workers : wk[w].st \in {"idle", "picked", "run", "exited"}
 \* every task at most once, ever
 AtMostOnce == \A t \in DOMAIN runs : runs[t] <= 1
 \* the WaitGroup counts exactly: tasks added but not yet sent + queued + running
